@@ -437,9 +437,14 @@ def r3(ctx: Ctx) -> None:
         t = edge_target(lg, b, "true")
         if t is not None and any(lg.nodes[x].kind == "raise" for x in reachable_from(lg, t, NORMAL, avoid=[n.id for n in lg.nodes if n.kind == "loop"])):
             ok = True
-    app = [n for n in lg.calls() if isinstance(n.ast, ast.Call) and isinstance(n.ast.func, ast.Attribute) and n.ast.func.attr == "append"]
-    ldom = ctx.dom(lf, NORMAL)
-    ok = ok and bool(app) and all(any(b.id in ldom[a.id] for b in brs) for a in app)
+    # every relative path computed from a listed entry passes the escape test before the iteration goes on / the function returns
+    rels = ctx.calls(lf, prim="os.path.relpath")
+    ends = [lg.exit] + [n.id for n in lg.nodes if n.kind == "loop"]
+    unguarded = None
+    for r_ in rels:
+        for s_ in [d for d, l in lg.succ[r_.id] if l in NORMAL]:
+            unguarded = unguarded or find_path(lg, s_, ends, avoid=[b.id for b in brs], labels=NORMAL)
+    ok = ok and bool(rels) and unguarded is None
     ctx.ob("C17.R3", lf, "a listed path outside the root raises before it is handed out", brs[0] if brs else None, ok,
            "defence in depth: callers (GC) must not act on an untrustworthy listing (#45)")
 
